@@ -138,7 +138,7 @@ Definition stable_oparam (st : ty -> bool) (p : option param) : bool :=
 Definition stable_sig (st : ty -> bool) (s : sig) : bool :=
   forallb (stable_param st) (s_params s) && stable_oparam st (s_star s) && stable_oparam st (s_starstar s)
   && st (s_ret s) && no_class_object (s_ret s)
-  && forallb st (s_exc s) && distinct_by py_eqb (s_exc s).
+  && forallb st (s_exc s) && distinct_by (fun a b => py_eqb b a) (s_exc s).
 (* no two signatures with the same parameters *)
 Definition stable_func (st : ty -> bool) (f : func) : bool :=
   forallb (stable_sig st) (f_sigs f) && distinct_by stripped_eqb (f_sigs f).
@@ -149,14 +149,14 @@ Definition self_plain (cls : cid) (s : sig) : bool :=
   | p :: _ => negb (Nat.eqb (p_name p) 0 && is_generic (p_ty p) && Nat.eqb (base_cid (p_ty p)) cls)
   | [] => true
   end.
-Definition stable_class (st : ty -> bool) (c : class) : bool :=
+Definition stable_class (kk : kind) (st : ty -> bool) (c : class) : bool :=
   forallb (fun f => stable_func st f && forallb (self_plain (cl_name c)) (f_sigs f)) (cl_methods c)
   && forallb (stable_const st) (cl_consts c)
-  && forallb (fun b => kind_eqb (fst b) KClass) (cl_bases c).
-Definition stable_unit (o : opts) (Hd : hier) (u : unit_) : bool :=
-  let kk := KClass in
+  && forallb (fun b => kind_eqb (fst b) kk) (cl_bases c).
+(* [kk]: the spelling of class references in the stub; must be ClassType when LookupClasses runs *)
+Definition stable_unit (kk : kind) (o : opts) (Hd : hier) (u : unit_) : bool :=
   let st := stable_ty (hier_of u ++ Hd) (o_deps o) (o_max_union o) kk in
-  forallb (stable_const st) (u_consts u) && forallb (stable_class st) (u_classes u)
+  forallb (stable_const st) (u_consts u) && forallb (stable_class kk st) (u_classes u)
   && forallb (stable_func st) (u_funcs u).
 
 (* the lossless option settings without remove_mutable (what pytype itself uses is one of them) *)
@@ -176,7 +176,12 @@ Definition idem_guard_ok (fl : list flag) (p : pass) : bool :=
   | PAbsorbMutableParameters | PMergeTypeParameters | PAdjustSelf => has_flag FRemoveMutable fl
   | PSimplifyUnionsWithSuperclasses => has_flag FDeps fl
   | PCollapseLongUnions => has_flag FMaxUnion fl
+  | PLookupClasses => has_flag FDeps fl && has_flag FCanDoLookup fl
   | _ => true
   end.
 Definition idem_pipeline_ok (ps : list (list flag * pass)) : bool :=
   forallb (fun s => idem_guard_ok (fst s) (snd s)) ps.
+
+(* decidable version of [ranked] for concrete tables *)
+Definition rankedb (H : hier) : bool :=
+  forallb (fun e => forallb (fun s => s <? fst e) (snd e)) H.
